@@ -20,7 +20,9 @@ OWNERS = {
 
 def run_driver_parallel(drv, behs, sc, extra_args=(), procs=12, tag="t"):
     """replay behaviours with several driver processes; returns path of the concatenated trace and per-trace index."""
-    n = max(1, min(procs, (len(behs) + 19) // 20))
+    # at most 250 behaviours per driver process (each store the driver opens leaks a file handle inside the repository's
+    # migration runner), at most `procs` processes at a time
+    n = max(1, (len(behs) + 249) // 250, min(procs, (len(behs) + 19) // 20))
     chunks = [behs[i::n] for i in range(n)]
     order = [list(range(len(behs)))[i::n] for i in range(n)]
 
@@ -30,7 +32,7 @@ def run_driver_parallel(drv, behs, sc, extra_args=(), procs=12, tag="t"):
         V.run_driver(drv, ["-in", bf, "-out", tf] + list(extra_args), timeout=3000)
         return tf
 
-    with cf.ThreadPoolExecutor(max_workers=n) as ex:
+    with cf.ThreadPoolExecutor(max_workers=procs) as ex:
         files = list(ex.map(one, range(n)))
     # concatenate, renumbering traces globally so that viol.t indexes `index`
     out = sc.path("%s-trace.ndjson" % tag)
